@@ -276,8 +276,18 @@ func engineAdmission(r *fw.Run, rule string, withVariables bool) {
 				}
 			}
 			// no JSON-object variables to validate
-			if b, ok := ast.Unparen(e).(*ast.BinaryExpr); ok && b.Op.String() == "&&" && !branch && mentionsField(info, b, "graphql", "Request", "Variables") {
-				st.Set("vars-ok")
+			if b, ok := ast.Unparen(e).(*ast.BinaryExpr); ok && b.Op.String() == "&&" && !branch {
+				// every conjunct must be about the shape of the variables themselves: an extra, unrelated
+				// condition would let JSON-object variables through unvalidated
+				all := true
+				for _, c := range flattenAnd(b) {
+					if !mentionsField(info, c, "graphql", "Request", "Variables") {
+						all = false
+					}
+				}
+				if all {
+					st.Set("vars-ok")
+				}
 			}
 			if a.Kind == "False" {
 				if c, ok := ast.Unparen(a.X).(*ast.CallExpr); ok && fw.CallIs(info, c, "opreport", "Report.HasErrors") && st.Must("planned") && !st.May("plan-report-reused") {
